@@ -243,6 +243,8 @@ pub fn search_stream(args: &[String]) {
                 let total = if mode == "budget" { s.get_nodes() } else { sv::POLLS.load(Ordering::Relaxed) };
                 sv::STOP_AT_POLL.store(0, Ordering::Relaxed);
                 println!("X calibration-end total={total}");
+                let maxcases: u64 = arg(args, "maxcases", 200);
+                let step = step.max(total.div_ceil(maxcases.max(1)));
                 let off = rng.below(step);
                 let mut k = 1 + off;
                 while k <= total + 1 {
